@@ -335,6 +335,10 @@ def random_spec(rng):
             spec["footnote"] = {"text": "FN0"}
         if rng.random() < 0.3:
             spec["title"] = {"text": "TT0"}
+        if rng.random() < 0.25:
+            # column headers on the first page only: the group context is still restored on every page
+            spec["body"]["pageby_header"] = False
+            spec["colheader"] = rng.choice(["default", "default", "none"])
     spec = make_spec(rng, cols, rng.choice([2, 3, 4, 5, 7, 10, 40]), extra)
     if kind == "floatx":
         for c in spec["df"]["cols"]:
